@@ -560,7 +560,11 @@ impl<'a> LoweringContext<'a> {
                 );
             }
             TypedStmtKind::Block(stmts) => {
+                // names declared inside the block go out of scope with it (an outer
+                // variable shadowed inside must be visible again afterwards)
+                let scope = self.locals_by_name.len();
                 self.lower_body(stmts);
+                self.locals_by_name.truncate(scope);
             }
             TypedStmtKind::If {
                 condition,
@@ -702,6 +706,7 @@ impl<'a> LoweringContext<'a> {
         step: &Option<TypedExpr>,
         body: &TypedStmt,
     ) {
+        let scope = self.locals_by_name.len();
         let start_span = Some(self.span(&start.span));
         let iter_ty = self.lower_type_from_infer(&start.ty);
         let iter_local = self.alloc_named_local(iterator, iter_ty.clone(), true, start_span);
@@ -778,6 +783,7 @@ impl<'a> LoweringContext<'a> {
         self.fixup_block_id(incr_id);
 
         self.fixup_block_id_noop(exit_id);
+        self.locals_by_name.truncate(scope);
     }
 
     fn lower_foreach(
@@ -788,6 +794,7 @@ impl<'a> LoweringContext<'a> {
         body: &TypedStmt,
         sp: Option<Span>,
     ) {
+        let scope = self.locals_by_name.len();
         let collection = self.lower_expr(iterable);
         let col_ty = self.lower_type_from_infer(&iterable.ty);
         let col_local = self.alloc_temp(col_ty);
@@ -886,6 +893,7 @@ impl<'a> LoweringContext<'a> {
         self.fixup_block_id(incr_id);
 
         self.fixup_block_id_noop(exit_id);
+        self.locals_by_name.truncate(scope);
     }
 
     // ========================================================================
